@@ -126,6 +126,8 @@ def fop(op, a, b):
                 raise Err()
             if a == 0 and b < 0:
                 raise Skip()
+            if a < 0 and abs(b) > 2 ** 31:
+                raise Skip()    # manual silent on huge integral exponents of a negative base
             r = math.pow(a, b)
         elif op in CMP:
             return cmpop(op, a, b)
@@ -162,9 +164,11 @@ def lit(v):
             if '.' not in mant:
                 mant += '.0'
             s = '%sE%s%d' % (mant, '-' if int(ex) < 0 else '', abs(int(ex)))
+            if int(ex) < 0 and not (v < 0):
+                s = '(%s)' % s     # see sub-space e: a bare negative exponent inside a formula is a known finding
         elif '.' not in s:
             s += '.0'
-        assert float(s.replace('E', 'e')) == abs(v)
+        assert float(s.replace('E', 'e').strip('()')) == abs(v)
         return s if not (v < 0 or math.copysign(1, v) < 0) else '(0.0-%s)' % s
     if v == -2 ** 63:
         return '(0-9223372036854775807-1)'
@@ -294,7 +298,7 @@ def functions():
         it = item(expr, val=fn, tol=tol)
         if it:
             out.append(it)
-    bits = [0, 1, 2, 3, 4, 6, 8, 128, 255, 256, 2 ** 31, 2 ** 32, 2 ** 62, 2 ** 63 - 1, -1, -2, -2 ** 63]
+    bits = [0, 1, 2, 3, 4, 5, 6, 8, 9, 12, 40, 128, 255, 256, 2 ** 31, 2 ** 32, 2 ** 32 + 2 ** 31, 2 ** 62, 2 ** 63 - 1, -1, -2, -2 ** 63]
     for x in bits:
         u = x % M
         f('bitcnt(%s)' % lit(x), lambda x=x: popcnt(x))
@@ -302,6 +306,8 @@ def functions():
         f('lastbit(%s)' % lit(x), lambda u=u: -1 if u == 0 else u.bit_length() - 1)
 
         def bp(u=u):
+            if u == 2 ** 63:
+                raise Skip()   # bit 63 alone: sign bit, the manual does not say whether it counts as a unique bit
             if popcnt(u) != 1:
                 raise Err()
             return u.bit_length() - 1
@@ -311,12 +317,15 @@ def functions():
         f('exprtype(%s)' % lit(x), lambda: 0)
     for x in [0.0, 1.0, -1.0, 0.5, -0.5, 2.0, 4.0, 1e-308, 1e308, 3.0, 0.25, 10.0, 100.0]:
         L = lit(x)
+        big = abs(x) > 1e100 or (0 < abs(x) < 1e-100)   # extreme magnitudes: only the exact functions are demanded
         f('sgn(%s)' % L, lambda x=x: (x > 0) - (x < 0))
         f('abs(%s)' % L, lambda x=x: abs(x))
         f('exprtype(%s)' % L, lambda: 1)
 
         def dom(fn, ok):
             def g():
+                if big:
+                    raise Skip()
                 if not ok:
                     raise Err()
                 try:
@@ -472,9 +481,13 @@ def subspaces(tier):
 
     def lb():
         for p, its in literal_batches(rads):
-            for b in micro.batches(p, [], its, 400):
+            for b in micro.batches(p, [], its, 400, fixed=8):
                 yield b
     subs.append(('d:literals', lb()))
+    fl = [{'line': '\tdq %s' % e, 'want': struct.pack('<d', v).hex(), 'e': e} for e, v in
+          (('2.0*1.0E-3', 2.0 * 1.0e-3), ('1.0E-3*2.0', 1.0e-3 * 2.0), ('1.0+1.0E-10', 1.0 + 1.0e-10), ('1.0E-10+1.0', 1.0e-10 + 1.0), ('1.0E-3', 1.0e-3),
+           ('1.5E-3-1.0', 1.5e-3 - 1.0), ('1.0-1.5E-3', 1.0 - 1.5e-3), ('2.0^1.0E-1', math.pow(2.0, 0.1)), ('4.0/1.0E-2', 4.0 / 1.0e-2))]
+    subs.append(('e:float-literal-with-negative-exponent-in-formula', micro.batches(pre, [], fl, 50)))
     return subs
 
 
@@ -487,6 +500,8 @@ def describe(case):
 def sigf(it):
     import re
     e = it.get('e', '')
+    if re.search(r'[0-9]E-[0-9]', e) and not e.startswith('(') and '(' not in e and re.search(r'[-+*/^]', re.sub(r'E-', 'E', e)):
+        return 'bare-negative-exponent-literal-inside-formula'
     return re.sub(r'\(0(\.0)?-[0-9.E-]+(-1)?\)|[0-9][0-9A-Za-z.]*|"[^"]*"', 'N', e)[:40]
 
 
